@@ -190,7 +190,7 @@ def group_results(out):
 
 def run_impl(cases, variant="plain", shards=None):
     bdir = vlib.build(variant)
-    return _run_sharded([os.path.join(bdir, "vh")], cases, shards, env={"ASAN_OPTIONS": "detect_leaks=0:abort_on_error=1", "UBSAN_OPTIONS": "halt_on_error=1:print_stacktrace=1"})
+    return _run_sharded([os.path.join(bdir, "vh")], cases, shards, env={"ASAN_OPTIONS": "detect_leaks=0:abort_on_error=1", "UBSAN_OPTIONS": "halt_on_error=1:abort_on_error=1:print_stacktrace=1"})
 
 
 ORACLE_FILE = os.path.join(vlib.CACHE, "oracle.txt")
